@@ -59,8 +59,25 @@ where
 
 pub type Reachable = Arc<(Mutex<bool>, Condvar)>;
 
+/// Where requests go: the in-process tower (through the public trait methods of `Arc<InternalAPI>`)
+/// or a real `teosd` process (public HTTP API + private mTLS gRPC API, see `remote.rs`).
+#[derive(Clone)]
+pub enum Api {
+    Local(Arc<InternalAPI>),
+    Remote(Arc<crate::remote::RemoteApi>),
+}
+
+impl Api {
+    pub fn local(&self) -> Arc<InternalAPI> {
+        match self {
+            Api::Local(a) => a.clone(),
+            Api::Remote(_) => panic!("in-process API requested from a remote session"),
+        }
+    }
+}
+
 pub struct Session<'a> {
-    pub api: Arc<InternalAPI>,
+    pub api: Api,
     pub poller: &'a mut dyn Poller,
     pub tower_id: TowerId,
     pub reachable: Reachable,
@@ -156,7 +173,7 @@ pub fn run_session<R>(chain: &SimChain, node: &SimNode, cfg: &TowerCfg, f: impl 
         chain.armed.store(true, std::sync::atomic::Ordering::SeqCst);
         block_on(chain_monitor.poll_best_tip());
 
-        let api = Arc::new(InternalAPI::new(watcher, vec![], bitcoind_reachable.clone(), shutdown_trigger));
+        let api = Api::Local(Arc::new(InternalAPI::new(watcher, vec![], bitcoind_reachable.clone(), shutdown_trigger)));
         let mut session = Session { api, poller: &mut chain_monitor, tower_id: TowerId(tower_pk), reachable: bitcoind_reachable, fresh, first_poll_log_idx };
         Ok(f(&mut session))
     }
@@ -188,48 +205,67 @@ fn st(s: tonic::Status) -> ApiErr {
     ApiErr::Status(s.code(), s.message().to_string())
 }
 
-pub fn register(api: &Arc<InternalAPI>, user_id: Vec<u8>) -> Result<common_msgs::RegisterResponse, ApiErr> {
+pub fn register(api: &Api, user_id: Vec<u8>) -> Result<common_msgs::RegisterResponse, ApiErr> {
+    let api = match api {
+        Api::Local(a) => a,
+        Api::Remote(r) => return r.register(user_id),
+    };
     futures::executor::block_on(PublicTowerServices::register(api, Request::new(common_msgs::RegisterRequest { user_id })))
         .map(|r| r.into_inner())
         .map_err(st)
 }
 
-pub fn add_appointment(api: &Arc<InternalAPI>, locator: Vec<u8>, encrypted_blob: Vec<u8>, to_self_delay: u32, signature: String) -> Result<common_msgs::AddAppointmentResponse, ApiErr> {
-    futures::executor::block_on(PublicTowerServices::add_appointment(
-        api,
-        Request::new(common_msgs::AddAppointmentRequest {
-            appointment: Some(common_msgs::Appointment { locator, encrypted_blob, to_self_delay }),
-            signature,
-        }),
-    ))
-    .map(|r| r.into_inner())
-    .map_err(st)
+pub fn add_appointment(api: &Api, locator: Vec<u8>, encrypted_blob: Vec<u8>, to_self_delay: u32, signature: String) -> Result<common_msgs::AddAppointmentResponse, ApiErr> {
+    let req = common_msgs::AddAppointmentRequest { appointment: Some(common_msgs::Appointment { locator, encrypted_blob, to_self_delay }), signature };
+    let api = match api {
+        Api::Local(a) => a,
+        Api::Remote(r) => return r.add_appointment(req),
+    };
+    futures::executor::block_on(PublicTowerServices::add_appointment(api, Request::new(req))).map(|r| r.into_inner()).map_err(st)
 }
 
-pub fn get_appointment(api: &Arc<InternalAPI>, locator: Vec<u8>, signature: String) -> Result<common_msgs::GetAppointmentResponse, ApiErr> {
-    futures::executor::block_on(PublicTowerServices::get_appointment(api, Request::new(common_msgs::GetAppointmentRequest { locator, signature })))
-        .map(|r| r.into_inner())
-        .map_err(st)
+pub fn get_appointment(api: &Api, locator: Vec<u8>, signature: String) -> Result<common_msgs::GetAppointmentResponse, ApiErr> {
+    let req = common_msgs::GetAppointmentRequest { locator, signature };
+    let api = match api {
+        Api::Local(a) => a,
+        Api::Remote(r) => return r.get_appointment(req),
+    };
+    futures::executor::block_on(PublicTowerServices::get_appointment(api, Request::new(req))).map(|r| r.into_inner()).map_err(st)
 }
 
-pub fn get_subscription_info(api: &Arc<InternalAPI>, signature: String) -> Result<common_msgs::GetSubscriptionInfoResponse, ApiErr> {
-    futures::executor::block_on(PublicTowerServices::get_subscription_info(api, Request::new(common_msgs::GetSubscriptionInfoRequest { signature })))
-        .map(|r| r.into_inner())
-        .map_err(st)
+pub fn get_subscription_info(api: &Api, signature: String) -> Result<common_msgs::GetSubscriptionInfoResponse, ApiErr> {
+    let req = common_msgs::GetSubscriptionInfoRequest { signature };
+    let api = match api {
+        Api::Local(a) => a,
+        Api::Remote(r) => return r.get_subscription_info(req),
+    };
+    futures::executor::block_on(PublicTowerServices::get_subscription_info(api, Request::new(req))).map(|r| r.into_inner()).map_err(st)
 }
 
-pub fn get_all_appointments(api: &Arc<InternalAPI>) -> Vec<common_msgs::AppointmentData> {
-    futures::executor::block_on(PrivateTowerServices::get_all_appointments(api, Request::new(()))).unwrap().into_inner().appointments
+pub fn get_all_appointments(api: &Api) -> Vec<common_msgs::AppointmentData> {
+    match api {
+        Api::Local(api) => futures::executor::block_on(PrivateTowerServices::get_all_appointments(api, Request::new(()))).unwrap().into_inner().appointments,
+        Api::Remote(r) => r.get_all_appointments(),
+    }
 }
 
-pub fn get_tower_info(api: &Arc<InternalAPI>) -> teos::protos::GetTowerInfoResponse {
-    futures::executor::block_on(PrivateTowerServices::get_tower_info(api, Request::new(()))).unwrap().into_inner()
+pub fn get_tower_info(api: &Api) -> teos::protos::GetTowerInfoResponse {
+    match api {
+        Api::Local(api) => futures::executor::block_on(PrivateTowerServices::get_tower_info(api, Request::new(()))).unwrap().into_inner(),
+        Api::Remote(r) => r.get_tower_info(),
+    }
 }
 
-pub fn get_users(api: &Arc<InternalAPI>) -> Vec<Vec<u8>> {
-    futures::executor::block_on(PrivateTowerServices::get_users(api, Request::new(()))).unwrap().into_inner().user_ids
+pub fn get_users(api: &Api) -> Vec<Vec<u8>> {
+    match api {
+        Api::Local(api) => futures::executor::block_on(PrivateTowerServices::get_users(api, Request::new(()))).unwrap().into_inner().user_ids,
+        Api::Remote(r) => r.get_users(),
+    }
 }
 
-pub fn get_user(api: &Arc<InternalAPI>, user_id: Vec<u8>) -> Option<teos::protos::GetUserResponse> {
-    futures::executor::block_on(PrivateTowerServices::get_user(api, Request::new(teos::protos::GetUserRequest { user_id }))).ok().map(|r| r.into_inner())
+pub fn get_user(api: &Api, user_id: Vec<u8>) -> Option<teos::protos::GetUserResponse> {
+    match api {
+        Api::Local(api) => futures::executor::block_on(PrivateTowerServices::get_user(api, Request::new(teos::protos::GetUserRequest { user_id }))).ok().map(|r| r.into_inner()),
+        Api::Remote(r) => r.get_user(user_id),
+    }
 }
